@@ -114,7 +114,38 @@ pub async fn settle() {
 /// Advance the paused clock by `ms` whole milliseconds, one at a time.
 pub async fn advance_ms(ms: u64) {
     for _ in 0..ms {
+        VIRT_NS.fetch_add(1_000_000, Ordering::SeqCst);
         tokio::time::advance(std::time::Duration::from_millis(1)).await;
         settle().await;
     }
+}
+
+// ---------------------------------------------------------------------------
+// Virtual time at the libc boundary.
+// std::time::Instant::now() calls clock_gettime(CLOCK_MONOTONIC); this definition,
+// linked into every harness binary, takes precedence over libc's, so every
+// Instant in the code under test (rate limiter windows, cache TTLs, circuit
+// breaker timestamps, measured call durations) reads the harness's virtual clock.
+// The tokio runtime is paused; `advance_ms` moves both clocks in lock-step.
+// No source change in /repo is needed for time.
+pub static VIRT_NS: std::sync::atomic::AtomicU64 = std::sync::atomic::AtomicU64::new(0);
+const FAKE_BASE_S: i64 = 1_000_000;
+
+#[no_mangle]
+pub unsafe extern "C" fn clock_gettime(clk: libc::clockid_t, ts: *mut libc::timespec) -> libc::c_int {
+    if clk == libc::CLOCK_MONOTONIC || clk == libc::CLOCK_MONOTONIC_RAW || clk == libc::CLOCK_BOOTTIME
+        || clk == libc::CLOCK_MONOTONIC_COARSE
+    {
+        let v = VIRT_NS.load(Ordering::SeqCst);
+        (*ts).tv_sec = FAKE_BASE_S + (v / 1_000_000_000) as i64;
+        (*ts).tv_nsec = (v % 1_000_000_000) as i64;
+        0
+    } else {
+        libc::syscall(libc::SYS_clock_gettime, clk, ts) as libc::c_int
+    }
+}
+
+/// Current virtual time in nanoseconds.
+pub fn now_ns() -> u64 {
+    VIRT_NS.load(Ordering::SeqCst)
 }
